@@ -165,7 +165,13 @@ class ChunkedReceiver:
                         else:
                             # Finished chunks.
                             self.all_chunks_received = True
-                    # else expect a control line.
+                    else:
+                        # an empty line where a chunk size is expected (the
+                        # CRLF after chunk data is consumed separately above)
+                        self.error = BadRequest("Invalid chunk size")
+                        self.all_chunks_received = True
+
+                        break
             else:
                 # Receive the trailer.
                 trailer = self.trailer + s
